@@ -62,11 +62,12 @@ def run(ctx):
     G = ctx.G
     k = G.one('cctz::detail::format')
     u, f = G.defs[k]
-    bufs = [x for x in walk(f) if x.get('kind') == 'VarDecl' and re.match(r'^char\s*\[\d+\]$', dtype(x) or qtype(x))]
+    BUF = r'^(?:char\s*\[(\d+)\]|(?:struct\s+)?std::array<char,\s*(\d+)[uUlL]*>)$'
+    bufs = [x for x in walk(f) if x.get('kind') == 'VarDecl' and re.match(BUF, dtype(x) or qtype(x))]
     if len(bufs) != 1:
         raise AnalysisBroken('C08: scratch buffer of format() not found (%d)' % len(bufs))
     buf = bufs[0]
-    extent = int(re.search(r'\[(\d+)\]', dtype(buf)).group(1))
+    extent = int([g for g in re.match(BUF, dtype(buf) or qtype(buf)).groups() if g][0])
     obs = _Obs(buf['id'])
     assume = {}
     for acc, rg in ACC.items():
